@@ -4,6 +4,7 @@ use crate::Prop;
 
 pub mod common;
 pub mod corr;
+pub mod c01;
 pub mod c02;
 pub mod c03;
 pub mod c04;
@@ -19,6 +20,7 @@ pub mod c12;
 pub mod c13;
 pub mod c14;
 pub mod c15;
+pub mod c16;
 pub mod c17;
 pub mod c18;
 pub mod c19;
@@ -28,6 +30,7 @@ pub mod css_common;
 pub fn get(id: &str) -> Option<Box<dyn Prop>> {
     match id {
         "CORR" => Some(Box::new(corr::Corr)),
+        "C01" => Some(Box::new(c01::C01)),
         "C02" => Some(Box::new(c02::C02)),
         "C03" => Some(Box::new(c03::C03)),
         "C04" => Some(Box::new(c04::C04)),
@@ -42,6 +45,7 @@ pub fn get(id: &str) -> Option<Box<dyn Prop>> {
         "C13" => Some(Box::new(c13::C13)),
         "C14" => Some(Box::new(c14::C14)),
         "C15" => Some(Box::new(c15::C15)),
+        "C16" => Some(Box::new(c16::C16)),
         "C17" => Some(Box::new(c17::C17)),
         "C18" => Some(Box::new(c18::C18)),
         "C19" => Some(Box::new(c19::C19)),
